@@ -135,6 +135,31 @@ func checkC16(w *World, r *Report) {
 			if nsrc == 0 {
 				r.Bad("C16.split", "source pool reduced", w.Pos(split.Pos()), "the split creates a pool without reducing the source")
 			}
+			// a new pool that starts as a copy of another pool inherits every ledger field it does not assign
+			for _, b := range split.Blocks {
+				for _, in := range b.Instrs {
+					st, ok := in.(*ssa.Store)
+					if !ok {
+						continue
+					}
+					al, isAl := st.Addr.(*ssa.Alloc)
+					if !isAl || !strings.HasSuffix(typeString(al.Type()), "types.VestingPool") {
+						continue
+					}
+					if u, isLoad := st.Val.(*ssa.UnOp); !isLoad || u.Op != token.MUL {
+						continue
+					}
+					assigned := map[string]bool{}
+					for _, fs := range FieldStores(split) {
+						if fs.FA.X == ssa.Value(al) && instrDominates(st, fs.Store) {
+							assigned[fs.Field] = true
+						}
+					}
+					for _, f := range []string{"InitiallyLocked", "Sent", "Withdrawn"} {
+						r.Check(assigned[f], "C16.split", "new pool copied from an existing pool: "+f+" assigned afterwards", w.Pos(st.Pos()), "explicitly assigned after the copy", "the new pool starts as a copy of an existing pool and keeps that pool's "+f+": the locked value of the owner changes by the inherited amount")
+					}
+				}
+			}
 		}
 	}
 	// ---------- C16.precheck ----------
